@@ -8,6 +8,7 @@ import PmVerif.Model.ManyMatcher
 import PmVerif.Model.BuilderT
 import PmVerif.Model.TraversalX
 import PmVerif.Proofs.C07Check
+import PmVerif.Props.TBuildLCore
 import PmVerif.Spec.Occurs
 import PmVerif.Spec.MatRun
 namespace Drv
@@ -166,6 +167,8 @@ def handleE2E {K V P H M Pat} [DecidableEq K] [DecidableEq V] [DecidableEq P]
   -- fires, this build is outside the region the theorem covers: search the dumped automaton
   -- (model traversal, which the RUN stage ties to the implementation) for a failing host.
   let mut guardHit := false
+  let mut guardE := true
+  let mut accOk := true
   -- strict replay: buildTE (c1T, c1C, c4T, c1D, c1E) for the shipped domains; the table test
   -- domain, on whose real logs c1E can fail, is judged against buildTD
   match (if dom.name == "TAB" then Automaton.buildTD dom.toTree dom.D.req FUEL inputs evs
@@ -173,6 +176,15 @@ def handleE2E {K V P H M Pat} [DecidableEq K] [DecidableEq V] [DecidableEq P]
   | .ok _ => pure ()
   | .error _ =>
     guardHit := true
+    -- outside the strict replay. Set-level theorems still cover the build if the weaker
+    -- guard E holds along the log (`TBL.buildTL_acc_partial`) or the dumped automaton passes
+    -- the per-build determinism check (`TBL.buildTL_acc_checked`); multiplicity and totality
+    -- are covered per build (unambOK, wfCheck). Only when BOTH fail is the build outside every
+    -- set-level theorem: reported as a disagreement, and searched for a failing host.
+    guardE := TBL.guardE_ok dom.toTree dom.D.req FUEL inputs evs
+    accOk := TBL.accOK dump.toAutomaton
+    if !guardE && !accOk then
+      out := { out with dis := out.dis ++ ["BUILD.outside the build trips the make_det guard, fails guard E and the dumped automaton fails accOK: outside every set-level theorem"] }
     match dom.judge with
     | none => pure ()
     | some judge =>
@@ -311,7 +323,7 @@ def handleE2E {K V P H M Pat} [DecidableEq K] [DecidableEq V] [DecidableEq P]
     [s!"dom={dom.name}", s!"patterns={pats.length}", s!"states={dump.states.length}",
      s!"asks={answers.length}", s!"yes={(answers.filter id).length}"] ++
     (if nMerges > 0 then ["merge"] else []) ++ (if nFuse > 0 then ["fuse"] else []) ++
-    (if nOcc > 0 then ["occ"] else []) ++ (if guardHit then ["outside-tbuild-guard"] else []) ++
+    (if nOcc > 0 then ["occ"] else []) ++ (if guardHit then ["outside-tbuild-guard"] ++ (if guardE then ["guardE-ok"] else ["guardE-FAILS"]) ++ (if accOk then ["accOK"] else ["accOK-FAILS"]) else []) ++
     (match dom.programOK with
      | none => []
      | some f => match f A pats cvs with | 1 => ["programOK"] | 0 => ["programOK-FAILS"] | _ => ["programOK-na"]) ++
